@@ -526,3 +526,11 @@ def r_charstring(ctx):
 def r_wspred(ctx):
     from rules import c11
     c11.r1(ctx)
+
+
+@rule('C12', 'R-C12-7', 'T11 SIBLING (the Python encoding of an edit operation: writer and reader agree)',
+      'EditOperation::into_pyobject writes "i" / "d" / "r" / "s" and extract_bound reads each back as the same variant: the script operations() hands '
+      'to Python names the operations that were computed')
+def r7(ctx):
+    from rules.common import py_encoding_agrees
+    py_encoding_agrees(ctx, 'edit::EditOperation', {'Insert', 'Delete', 'Replace', 'Swap'})
